@@ -31,6 +31,8 @@ type op struct {
 	Sched  bool                   `json:"scheduled,omitempty"`
 	Expire bool                   `json:"expires,omitempty"`
 	Err    string                 `json:"err,omitempty"`
+	// Implicit: the pattern is the `when` value itself (no {"pattern": ...} wrapper)
+	Implicit bool `json:"implicit_when,omitempty"`
 }
 
 type world struct {
@@ -76,6 +78,9 @@ func ruleMap(o op) map[string]interface{} {
 		r["schedule"] = "+10000h"
 	} else {
 		r["when"] = map[string]interface{}{"pattern": ref.CloneMap(o.When)}
+		if o.Implicit {
+			r["when"] = ref.CloneMap(o.When)
+		}
 	}
 	if o.Expire {
 		r["expires"] = float64(time.Now().Unix() + 1000000)
@@ -257,6 +262,7 @@ func main() {
 				o.When = hg.PatternMapFrom(hg.Map(1 + hg.Intn(2)))
 				o.Sched = hg.Intn(12) == 0
 				o.Expire = hg.Intn(8) == 0
+				o.Implicit = hg.Intn(8) == 0 // the pattern given directly as the `when` value
 			case k < 12:
 				o.Op = "remRule"
 			case k < 14:
@@ -483,6 +489,8 @@ func directed(r *rep.Report) {
 			[]map[string]interface{}{P("a", "s1")}},
 		{"unsortable-event", []op{{Op: "addRule", Loc: "child", Id: "r1", When: P("a", []interface{}{"s1"})}},
 			[]map[string]interface{}{P("a", []interface{}{"s1", 1})}},
+		{"implicit-when", []op{{Op: "addRule", Loc: "child", Id: "r1", When: P("wants", "?x"), Implicit: true}, {Op: "addRule", Loc: "child", Id: "r2", When: P("wants", "tea", "n", "?n"), Implicit: true}},
+			[]map[string]interface{}{P("wants", "beer"), P("wants", "tea", "n", 2)}},
 		{"optional-variable", []op{{Op: "addRule", Loc: "child", Id: "r1", When: P("a", "s1", "b", "??y")}},
 			[]map[string]interface{}{P("a", "s1"), P("a", "s1", "b", "here")}},
 		{"mixed-array", []op{{Op: "addRule", Loc: "child", Id: "r1", When: P("b", []interface{}{"", "?x", "s2"})}},
